@@ -127,17 +127,29 @@ def relations():
         for a in range(n):
             for b in range(n):
                 ga, gb = GRIDS[a][1], GRIDS[b][1]
-                if ga.compatible_with(gb):
-                    gc.append([a, b])
-                if ga == gb:
-                    ge.append([a, b])
+                # an exception of the package's own relation is "not related" for the model (which then expects a
+                # metadata error); the run on the real package shows what the exception does to connect()
+                try:
+                    if ga.compatible_with(gb):
+                        gc.append([a, b])
+                except Exception:  # noqa
+                    pass
+                try:
+                    if ga == gb:
+                        ge.append([a, b])
+                except Exception:  # noqa
+                    pass
                 try:
                     ga.get_transform_to(gb)
                     tr.append([a, b])
                 except Exception:  # noqa
                     pass
-        uc = [[a, b] for a in ALL_UNIT_IDS for b in ALL_UNIT_IDS
-              if fm.data.tools.compatible_units(unit_obj(a), unit_obj(b))]
+        def _uc(a, b):
+            try:
+                return fm.data.tools.compatible_units(unit_obj(a), unit_obj(b))
+            except Exception:  # noqa
+                return False
+        uc = [[a, b] for a in ALL_UNIT_IDS for b in ALL_UNIT_IDS if _uc(a, b)]
         me = []
         gopts = [None] + list(range(n))
         for a, ma in MASKS.items():
